@@ -656,6 +656,27 @@ def check_make_from_dicts(ctx, rep):
         rep.ok("T-COLUMNS", "make_from_dicts:rows-unchanged", b.where(), "the record list is moved into Grid.rows without being modified")
     else:
         rep.bad("T-COLUMNS", "T-COLUMNS:make_from_dicts:rows-unchanged", b.where(touched[0][0]) if touched else b.where(), "the grid's rows are not the records as given (%s): records are dropped / reordered on the way into the grid" % (", ".join("rows.%s()" % x[1] for x in touched) or "Grid.rows is not the parameter"))
+    # the variant with meta is the same grid with the meta attached: every path passes make_from_dicts(<the rows argument>)
+    wm = prog.get("haystack::val::grid::Grid::make_from_dicts_with_meta")
+    if wm is not None:
+        n += 1
+        mk = {bi for bi, t in wm.calls() if strip_generics(mir.callee_name(t) or "").endswith("Grid::make_from_dicts") and t["args"] and re.fullmatch(r"_1\**", repr(G.describe(wm, t["args"][0])))}
+        seen, todo, leak = set(), [0], None
+        while todo:
+            x = todo.pop()
+            if x in seen or wm.blocks[x].get("cleanup"):
+                continue
+            seen.add(x)
+            if x in mk:
+                continue
+            if wm.term(x)["k"] == "return":
+                leak = x
+                break
+            todo.extend(wm.succ(x))
+        if mk and leak is None:
+            rep.ok("T-COLUMNS", "make_from_dicts_with_meta:built-from-the-rows", wm.where(), "every path passes make_from_dicts(rows)")
+        else:
+            rep.bad("T-COLUMNS", "T-COLUMNS:make_from_dicts_with_meta:built-from-the-rows", wm.where(leak) if leak is not None else wm.where(), "make_from_dicts_with_meta can return a grid that was not built from the given records (a path avoids make_from_dicts(rows)): their tags are not its columns")
     # one result: the grid assembled from the names - no special case that returns some other grid (an empty record list gives a grid
     # without columns, not the placeholder grid with the column `empty`)
     n += 1
